@@ -258,7 +258,7 @@ impl Property for C04Sys {
                     }
                 }
             };
-            let bound: u64 = std::env::var("VERIF_C04SYS_SECS").ok().and_then(|s| s.parse().ok()).unwrap_or(20);
+            let bound: u64 = std::env::var("VERIF_C04SYS_SECS").ok().and_then(|s| s.parse().ok()).unwrap_or(30);
             let (mut ok, mut state) = settle(&docs, Duration::from_secs(bound)).await?;
             let mut forced = false;
             if !ok {
@@ -267,7 +267,7 @@ impl Property for C04Sys {
                     let peers: Vec<_> = (0..n).filter(|j| *j != i).map(|j| nodes[j].addr.clone()).collect();
                     docs[i].start_sync(peers).await?;
                 }
-                let r = settle(&docs, Duration::from_secs(3 * bound)).await?;
+                let r = settle(&docs, Duration::from_secs(4 * bound)).await?;
                 ok = r.0;
                 state = r.1;
             }
